@@ -560,8 +560,8 @@ func (h *Harness) agree(exp Expect, obs Observed, f *ast.Field, fd *ast.FieldDef
 		return "data: unexpected response data " + obs.Data
 	}
 	for _, d := range obs.rec.dirs {
-		if len(d.Path) < 2 || d.Path[0] != key {
-			return fmt.Sprintf("directive-path: @ad ran at path %v", d.Path)
+		if len(d.Path) < 2 || d.Path[0] != key || fd.Arguments.ForName(d.Path[1]) == nil {
+			return fmt.Sprintf("directive-path: @ad ran with path context %v, which is not <field>.<argument>...", d.Path)
 		}
 		var sp *SV
 		if v, has := exp.Args[d.Path[1]]; has {
@@ -618,23 +618,39 @@ func (h *Harness) Judge(c Case, obs Observed) Verdict {
 	if firstWhy == "" {
 		return Verdict{Kind: "pass", Primary: primary}
 	}
+	// detail: the first disagreement in which accept/reject already agreed (more telling
+	// than "accepts-invalid" when only a detail differs under some deviation)
+	detail := ""
+	note := func(why string) {
+		if detail == "" && !strings.HasPrefix(why, "accepts-invalid") && !strings.HasPrefix(why, "rejects-valid") && !strings.HasPrefix(why, "no-panic") {
+			detail = why
+		}
+	}
+	note(firstWhy)
 	for _, in := range interps[1:] {
-		if _, why := eval(in, nil); why == "" {
+		_, why := eval(in, nil)
+		if why == "" {
 			return Verdict{Kind: "pass", Primary: primary}
 		}
+		note(why)
 	}
 	for _, q := range AllQuirks {
 		for _, in := range interps {
-			if _, why := eval(in, Quirks{q: true}); why == "" {
+			_, why := eval(in, Quirks{q: true})
+			if why == "" {
 				return Verdict{Kind: "quirk", Sig: q, What: firstWhy, Primary: primary}
 			}
+			note(why)
 		}
 	}
-	kind := firstWhy
+	if detail == "" {
+		detail = firstWhy
+	}
+	kind := detail
 	if i := strings.Index(kind, ":"); i > 0 {
 		kind = kind[:i]
 	}
-	return Verdict{Kind: "violation", Sig: kind + ":" + c.PosType + "<-" + c.Class + "/" + c.Mode, What: firstWhy, Primary: primary}
+	return Verdict{Kind: "violation", Sig: kind + ":" + c.PosType + "<-" + c.Class + "/" + c.Mode, What: detail, Primary: primary}
 }
 
 // ---------------------------------------------------------------------------------------
